@@ -21,7 +21,7 @@ DECODERS = ["rtp", "rtcp", "stun", "dtls_record", "dtls_hsmsg", "dtls_clienthell
 # groups of entry points run as separate TLC + harness passes (label, entries, MaxFeeds, shards)
 # live endpoints, grouped so that each TLC emission run stays short
 LIVE_ICE = ["turn_udp", "turn_tcp", "ice_udp", "ice_tcp"]
-LIVE_MEDIA = ["rtp_transport", "udptl"]
+LIVE_MEDIA = ["rtp_transport", "udptl", "pc_rtp"]
 LIVE_DTLS = ["dtls_server", "dtls_client"]
 LIVE_SCTP = ["sctp"]
 LIVE_PC = ["pc_sdp", "pc_candidate"]
@@ -33,10 +33,10 @@ ALL_LIVE = LIVE_ICE + LIVE_DTLS + LIVE_SCTP + LIVE_PC + LIVE_MEDIA
 # out-edge of every visited state printed with its real history (sequences of inputs)
 TIERS = {
     "quick": [("decoders", DECODERS, 1, 4, None), ("ice", LIVE_ICE, 1, 8, None), ("dtls", LIVE_DTLS, 1, 8, None),
-              ("sctp", LIVE_SCTP, 1, 8, None), ("pc", LIVE_PC, 1, 8, None), ("media", LIVE_MEDIA, 1, 4, None),
+              ("sctp", LIVE_SCTP, 1, 8, None), ("pc", LIVE_PC, 1, 8, None), ("media", LIVE_MEDIA, 1, 8, None),
               ("seq", ALL_LIVE, 2, 8, (6, 5))],
     "thorough": [("decoders", DECODERS, 1, 8, None), ("ice", LIVE_ICE, 1, 8, None), ("dtls", LIVE_DTLS, 1, 8, None),
-                 ("sctp", LIVE_SCTP, 1, 8, None), ("pc", LIVE_PC, 1, 8, None), ("media", LIVE_MEDIA, 1, 4, None),
+                 ("sctp", LIVE_SCTP, 1, 8, None), ("pc", LIVE_PC, 1, 8, None), ("media", LIVE_MEDIA, 1, 8, None),
                  ("seq", ALL_LIVE, 2, 8, (40, 6))],
 }
 VARIANTS = {"quick": 2, "thorough": 6}
